@@ -195,6 +195,7 @@ extern "C" void __gcov_dump(void);
 inline std::string run_isolated(const std::function<std::string(const std::vector<CrashInfo> &)> &fn,
 		double hang_s = 60.0, int max_retries = 12) {
 	std::vector<CrashInfo> crashes;
+	int hangs = 0;
 	for(int attempt = 0;; attempt++) {
 		Slot *sl = (Slot *)mmap(nullptr, sizeof(Slot), PROT_READ | PROT_WRITE, MAP_SHARED | MAP_ANONYMOUS, -1, 0);
 		memset((void *)sl, 0, sizeof(uint64_t) + sizeof(uint32_t) + 1);
@@ -246,7 +247,13 @@ inline std::string run_isolated(const std::function<std::string(const std::vecto
 		if(ok) { munmap((void *)sl, sizeof(Slot)); return out; }
 		CrashInfo ci;
 		ci.step = std::string(sl->text, sl->len);
-		if(killed) ci.how = "hang(no progress for " + std::to_string((int)hang_s) + "s)";
+		if(killed) {
+			ci.how = "hang(no progress for " + std::to_string((int)hang_s) + "s)";
+			// every hang costs the full waiting time: once one step has been seen hanging for the full limit, later ones get a
+			// quarter of it, and after three the instance stops and reports them (instead of running into the instance timeout
+			// with nothing reported)
+			hangs++; if(hangs == 1) hang_s = hang_s / 4;
+		}
 		else if(WIFSIGNALED(status)) ci.how = "signal " + std::to_string(WTERMSIG(status));
 		else ci.how = "exit " + std::to_string(WIFEXITED(status) ? WEXITSTATUS(status) : -1);
 		munmap((void *)sl, sizeof(Slot));
@@ -254,7 +261,7 @@ inline std::string run_isolated(const std::function<std::string(const std::vecto
 		bool dup = false;
 		for(auto &c : crashes) if(c.step == ci.step) dup = true;
 		crashes.push_back(ci);
-		if(dup || attempt >= max_retries) {
+		if(dup || attempt >= max_retries || hangs >= 3) {
 			// cannot make progress: synthesise a result containing only the crash
 			InstResult r; r.name = "crashed"; r.complete = false; r.cap = "crash loop";
 			for(auto &c : crashes)
